@@ -160,4 +160,56 @@ theorem isAlign_reverseComplementSequences (names : List String) (b : Bag) :
   · rfl
   · exact isAlign_revcompNamedBag names b
 
+/-! ### sequences written back row by row (`withSeqs`) -/
+
+theorem sameShape_withSeqs (b : Bag) (ps : List (String × Seq)) (hn : ps.map Prod.fst = b.rows.map (·.name))
+    (hl : ps.map (·.2.length) = b.rows.map (·.seq.length)) :
+    SameShape { b with rows := withSeqs b.rows ps } b := by
+  have hlen := length_of_names hn
+  refine ⟨keys_withSeqs _ _ hlen, rfl, rfl, rfl, rfl, rfl, rfl, ?_⟩
+  have e : (withSeqs b.rows ps).map (·.seq.length) = ((withSeqs b.rows ps).map (·.seq)).map List.length := by
+    simp [List.map_map, Function.comp_def]
+  simp only []
+  rw [e, seqs_withSeqs _ _ hlen, ← hl]
+  simp [List.map_map, Function.comp_def]
+
+theorem pairs_lens (b : Bag) : (pairs b).map (·.2.length) = b.rows.map (·.seq.length) := by
+  simp [pairs, List.map_map, Function.comp_def]
+
+/-! ### `DiffWithFirst`, `ReplaceMatchChars` -/
+
+theorem againstFirst_names (g : Seq → Seq → Seq) (l : List (String × Seq)) :
+    (againstFirst g l).map Prod.fst = l.map Prod.fst := by
+  cases l with
+  | nil => rfl
+  | cons r0 rest => simp [againstFirst, List.map_map, Function.comp_def]
+
+theorem againstFirst_lens (g : Seq → Seq → Seq) (hg : ∀ f o, (g f o).length = o.length) (l : List (String × Seq)) :
+    (againstFirst g l).map (·.2.length) = l.map (·.2.length) := by
+  cases l with
+  | nil => rfl
+  | cons r0 rest => simp [againstFirst, List.map_map, Function.comp_def, hg]
+
+theorem diffSeq_length (f o : Seq) : (diffSeq f o).length = o.length := by simp [diffSeq]
+theorem matchSeq_length (L : Nat) (f o : Seq) : (matchSeq L f o).length = o.length := by simp [matchSeq]
+
+theorem sameShape_againstFirst (g : Seq → Seq → Seq) (hg : ∀ f o, (g f o).length = o.length) (b : Bag) :
+    SameShape { b with rows := withSeqs b.rows (againstFirst g (pairs b)) } b :=
+  sameShape_withSeqs b _ ((againstFirst_names g _).trans (pairs_names b))
+    ((againstFirst_lens g hg _).trans (pairs_lens b))
+
+theorem sameShape_diffWithFirst {b r : Bag} (h : diffWithFirstBag b = some r) : SameShape r b := by
+  unfold diffWithFirstBag at h
+  split at h
+  · cases h
+  · simp only [Option.some.injEq] at h; subst h
+    exact sameShape_againstFirst _ diffSeq_length b
+
+theorem sameShape_replaceMatchChars {b r : Bag} (h : replaceMatchCharsBag b = some r) : SameShape r b := by
+  unfold replaceMatchCharsBag at h
+  split at h
+  · cases h
+  · simp only [Option.some.injEq] at h; subst h
+    exact sameShape_againstFirst _ (matchSeq_length _) b
+
 end Gv.Proofs.BagAbs
